@@ -19,13 +19,13 @@ FieldKinds == {"string", "int", "int64", "uint8", "float64", "bool", "bytes", "t
                "ptr-string", "ptr-struct", "slice-string", "slice-struct", "slice-ptr-struct", "array-int",
                "map-string", "map-struct", "map-int-key", "struct", "embedded", "embedded-ptr",
                "self-ptr", "self-slice", "self-map", "mutual", "shared-twice", "deep-shared", "array-byte",
-               "emb-unexported", "emb-unexported-ptr", "self-rich"}
+               "emb-unexported", "emb-unexported-ptr", "self-rich", "anon-str", "anon-int"}
 TagClasses == {"none", "renamed", "omitempty", "renamed-omitempty", "dash", "string-opt", "js-required", "js-description"}
 Styles == {"inline", "defs", "nested"}
 
 TypeDescr(k1, t1, k2, t2) == [k1 |-> k1, t1 |-> t1, k2 |-> k2, t2 |-> t2]
 Types == {TypeDescr(k, t, "-", "-") : k \in FieldKinds, t \in TagClasses}
-    \cup {TypeDescr(a, "none", b, "renamed") : a \in {"string", "struct", "embedded", "ptr-struct", "self-ptr", "slice-struct", "map-struct"}, b \in FieldKinds}
+    \cup {TypeDescr(a, "none", b, "renamed") : a \in {"string", "struct", "embedded", "ptr-struct", "self-ptr", "slice-struct", "map-struct", "anon-str"}, b \in FieldKinds}
 
 VARIABLES ty, style, checked
 vars == <<ty, style, checked>>
